@@ -385,6 +385,43 @@ pub fn dispatch(t: &[Tok]) -> String {
                 (_, Err(e)) => format!("hasherr {:?}", e),
             }
         }),
+        "laws" => for_variant!(s(t, 1), T, {
+            // every relation of C08 on one pair, through the public API only
+            match (T::try_from(b(t, 2)), T::try_from(b(t, 3))) {
+                (Ok(a), Ok(c)) => {
+                    let (dm, nm) = (ComparisonConfiguration::Default, ComparisonConfiguration::NoLength);
+                    let (mut ca, mut cc) = (a, c);
+                    ca.clear_checksum();
+                    cc.clear_checksum();
+                    let ndiff = a
+                        .checksum()
+                        .data()
+                        .iter()
+                        .zip(c.checksum().data().iter())
+                        .filter(|(x, y)| x != y)
+                        .count();
+                    format!(
+                        "{} {} {} {} {} {} {} {} {} {} {} {} {} {}",
+                        a.compare_with_config(&c, dm),
+                        c.compare_with_config(&a, dm),
+                        a.compare_with_config(&c, nm),
+                        c.compare_with_config(&a, nm),
+                        a.compare_with_config(&a, dm),
+                        c.compare_with_config(&c, nm),
+                        a.length().compare(c.length()),
+                        ca.compare_with_config(&cc, dm),
+                        ca.compare_with_config(&cc, nm),
+                        ndiff,
+                        T::max_distance(dm),
+                        T::max_distance(nm),
+                        (a == c) as u8,
+                        a.compare(&c)
+                    )
+                }
+                (Err(e), _) => format!("hasherr {:?}", e),
+                (_, Err(e)) => format!("hasherr {:?}", e),
+            }
+        }),
         "maxdist" => for_variant!(s(t, 1), T, { format!("{}", T::max_distance(cmp_mode(s(t, 2)))) }),
         "partmax" => for_variant!(s(t, 1), T, {
             format!(
